@@ -144,6 +144,15 @@ CLAIMED["C02"] = (
     "that every real read back is the identical term and discrete content is identical. The stub is validated field by field "
     "and byte for byte against google.protobuf on concrete messages (obligation stub-vs-real); concrete replays use the real bytes.",
     "wire format outside (assumed lossless); skeleton size bounds; KST hitch angle has no .proto field", "2/C02")
+CLAIMED["C18"] = (
+    "Snapshot / operate / snapshot with symbolic leaves: a scenario whose positions, velocities and interval bounds are symbolic "
+    "(trajectory state class and goal-lanelet table kind chosen by forks) is observed through its public attributes, the element "
+    "tree of an XML export and the message tree of a protobuf export; a symbolically chosen history of 1 (quick) / 2 (thorough) "
+    "read-only operations (obstacle / scenario / lanelet / traffic-light queries with symbolic time steps, goal checks, ==, hash, "
+    "deepcopy, XML export, protobuf export) runs on the real code; z3 proves every leaf of the second observation equal to the "
+    "first and the structure is compared per path. Pickling and drawing + rendering cannot carry proxies: they are explored over "
+    "every discrete alternative on concrete leaves with the real lxml / protobuf bytes as observation.",
+    "histories <= 2 operations; private caches are not observed; pickle / matplotlib on concrete leaves", "2/C18")
 NOT_YET = {}
 
 props = [json.loads(l) for l in open(os.path.join(ROOT, "properties.jsonl"))]
